@@ -222,3 +222,46 @@ M("C10", DF, """                [self.rec_undiff(ch, *args) for ch in expr.child
   """                [self.rec_undiff(ch, *args) for ch in expr.children[0:i]]
                 + [self.rec(child, *args)]
                 + [self.rec_undiff(ch, *args) for ch in expr.children[i+2:]]""", "product rule skips a factor")
+
+CS = "pymbolic/cse.py"
+M("C12", CS, "        if count > 1}", "        if count > 2}", "count > 2 before tagging")
+M("C12", CS, """            return type(expr), frozenset(kid_count.items())""",
+  """            return type(expr), tuple(kid_count.items())""", "key getter does not normalise order")
+M("C12", CS, """        try:
+            return self.canonical_subexprs[key]
+        except KeyError:
+            new_expr = prim.wrap_in_cse(
+                    getattr(IdentityMapper, expr.mapper_method)(self, expr))
+            self.canonical_subexprs[key] = new_expr
+            return new_expr""", """        try:
+            return self.canonical_subexprs[expr]
+        except KeyError:
+            new_expr = prim.wrap_in_cse(
+                    getattr(IdentityMapper, expr.mapper_method)(self, expr))
+            self.canonical_subexprs[expr] = new_expr
+            return new_expr""", "canonical table keyed by the un-normalised node")
+M("C12", CS, """        if type(expr) is prim.CommonSubexpression:
+            return prim.wrap_in_cse(self.rec(expr.child), expr.prefix)""",
+  """        if type(expr) is prim.CommonSubexpression:
+            return prim.CommonSubexpression(self.rec(expr.child), expr.prefix)""", "existing wrapper wrapped again")
+M("C12", "pymbolic/mapper/evaluator.py", """    def map_common_subexpression_uncached(self, expr):
+        return self.rec(expr.child)""", """    def map_common_subexpression(self, expr):
+        return self.rec(expr.child)
+
+    def map_common_subexpression_uncached(self, expr):
+        return self.rec(expr.child)""", "evaluator CSE cache bypassed")
+M("C12", PR, """    if isinstance(expr, (Variable, Subscript)):
+        return expr
+
+    if isinstance(expr, CommonSubexpression):
+        if prefix is None:
+            return expr""", """    if isinstance(expr, (Variable,)):
+        return expr
+
+    if isinstance(expr, CommonSubexpression):
+        if prefix is None:
+            return expr""", "wrap_in_cse wraps subscripts")
+M("C12", CS, """    map_product = map_sum
+    map_power = map_sum
+    map_quotient = map_sum""", """    map_product = map_sum
+    map_quotient = map_sum""", "powers no longer eliminated")
